@@ -1926,7 +1926,9 @@ func (r stack) assembleStringStack(str []string, ot string, oc stackType) string
 	builder := newStringBuilder()
 
 	if r.positive(lonce) {
-		if oc != list {
+		// lead with the operator, but never leave it dangling
+		// when a non-parenthetical stack has nothing to show.
+		if oc != list && (len(str) > 0 || r.positive(parens)) {
 			builder.WriteString(ot)
 		}
 		for _, val := range str {
